@@ -75,7 +75,7 @@ func (g *tmplGen) printable0() string {
 	if g.r.Chance(3) {
 		return g.r.Pick([]string{"zz", "fail()", "xs[9]", "boom()", "st.hidden", "nilv.x"})
 	}
-	return g.r.Pick([]string{"s1", "s2", "g1", "num", "name", "st.Name", "m1.k", "one()", "recs(" + strconv.FormatInt(g.nextK(), 10) + ", s1)", "len(xs)", "1+2", "'lit'", "nilv", "s1", "s2", "st.Tags[0]", "1.5", "num / 2.0", "0.1 + 0.2", "1e21", "100000.0 * 10", "-0.0", "num * 1e-7", "p4.Next()", "q4.Next()", "q4.Self()", "p4.Self()", "true", "false", "true", "p4.Try()", "q4.Try()", "p4.Try()", "st.Load()"})
+	return g.r.Pick([]string{"s1", "s2", "g1", "num", "name", "st.Name", "m1.k", "one()", "recs(" + strconv.FormatInt(g.nextK(), 10) + ", s1)", "len(xs)", "1+2", "'lit'", "nilv", "s1", "s2", "st.Tags[0]", "1.5", "num / 2.0", "0.1 + 0.2", "1e21", "100000.0 * 10", "-0.0", "num * 1e-7", "p4.Next()", "q4.Next()", "q4.Self()", "p4.Self()", "true", "false", "true", "p4.Try()", "q4.Try()", "p4.Try()", "st.Load()", "t3.X", "t3.X", "t3.GetX()", "t3.Y", "t3.X + t3.Y"})
 }
 
 func (g *tmplGen) mixture() string {
